@@ -2,7 +2,7 @@
 EXTENDS CallsValue, Json, SequencesExt
 CONSTANTS ScenOut, Part, Parts, AllSuspects
 KindCode(k) == CASE k = "i2i" -> 1 [] k = "i2s" -> 2 [] k = "ptrA" -> 3 [] k = "ptrB" -> 5 [] k = "slcA" -> 7 [] k = "slcB" -> 11
-                 [] k = "s2s" -> 19 [] k = "mapB" -> 23 [] k = "mapK" -> 29 [] k = "mapV" -> 31 [] k = "mapKV" -> 59 [] k = "p2vB" -> 37 [] k = "p2s" -> 41 [] k = "mth" -> 43 [] k = "i2ps" -> 61 [] k = "nI2s" -> 47 [] k = "nL" -> 53 [] OTHER -> 13
+                 [] k = "s2s" -> 19 [] k = "mapB" -> 23 [] k = "mapK" -> 29 [] k = "mapV" -> 31 [] k = "mapKV" -> 59 [] k = "p2vB" -> 37 [] k = "p2s" -> 41 [] k = "mth" -> 43 [] k = "i2ps" -> 61 [] k = "pp2s" -> 67 [] k = "mapVS" -> 71 [] k = "nI2s" -> 47 [] k = "nL" -> 53 [] OTHER -> 13
 ShapeHash(sh) == IF Len(sh) = 1 THEN KindCode(sh[1]) ELSE KindCode(sh[1]) * 17 + KindCode(sh[2])
 \* the small useUnderlyingTypeMethods set is replayed in every run
 Mine(p) == (ShapeHash(p.shape.A) * 3 + ShapeHash(p.shape.B)) % Parts = Part \/ (DeclH(p) /\ (ShapeHash(p.shape.B) + KindCode(p.shape.A[1])) % 4 = Part % 4) \/ (\E i \in DOMAIN p.shape.A : p.shape.A[i] \in UnderKinds)
